@@ -4,7 +4,7 @@
    prodl = product of a list; `s` is the stream of generator outputs the code consumes (any stream). *)
 From Coq Require Import ZArith List Znumtheory.
 From C09 Require Import Model Model2 ProofsAlg ProofsDiv ProofsSplit ProofsIrr ProofsCZ ProofsReq ProofsSweepIrr ProofsSweepSqr ProofsSweepOrd
-  ProofsPow ProofsOrd ProofsRep.
+  ProofsPow ProofsOrd ProofsRep ProofsSqr.
 Import ListNotations.
 Local Open Scope Z_scope.
 
@@ -196,3 +196,66 @@ Proof. exact czfactor_rep_thm. Qed.
 Print Assumptions C09_czfactor_repaired_multiplicities.
 Example C09_sqrfree_repaired_X2_over_GF2 : sqrfree_rep 2 4 3 [0; 0; 1] = (2, [[1]; [0; 1]]).
 Proof. exact sqrfree_rep_X2. Qed.
+
+(* Poly1Dom::gcd (Euclid's remainder sequence as modelled, every branch) IS a greatest common divisor: it divides both arguments
+   (no hypothesis on its degree, unlike C09_gcd_divides) and every common divisor divides it; Bezout; Gauss' lemma *)
+Theorem C09_gcd_is_greatest : Pgcd_greatest_stmt.
+Proof. exact pgcd_greatest_thm. Qed.
+Print Assumptions C09_gcd_is_greatest.
+Theorem C09_gcd_divides_always : Pgcd_divides_stmt.
+Proof. exact pgcd_divides_thm. Qed.
+Print Assumptions C09_gcd_divides_always.
+Theorem C09_gcd_bezout : Bezout_stmt.
+Proof. exact bezout_thm. Qed.
+Print Assumptions C09_gcd_bezout.
+Theorem C09_gauss_lemma : Gauss_stmt.
+Proof. exact gauss_thm. Qed.
+Print Assumptions C09_gauss_lemma.
+Example C09_gcd_hypotheses_satisfiable : prime 5 /\ canon 5 [1; 1] /\ canon 5 [2; 1] /\ pgcd 5 [1; 1] [2; 1] = pone.
+Proof. exact pgcd_divides_example. Qed.
+
+(* Poly1Dom::diff is the formal derivative: coefficient i is (i+1) a_(i+1) mod p, for every input; Leibniz' rule *)
+Theorem C09_diff_is_derivative : Pdiff_coeff_stmt.
+Proof. exact pdiff_coeff_thm. Qed.
+Print Assumptions C09_diff_is_derivative.
+Theorem C09_diff_leibniz : Pdiff_leibniz_stmt.
+Proof. exact pdiff_leibniz_thm. Qed.
+Print Assumptions C09_diff_leibniz.
+Example C09_diff_example : prime 5 /\ pdiff 5 [1; 2; 3; 4] = [2; 1; 2] /\ dZ [1; 2; 3; 4] = [2; 6; 12].
+Proof. exact pdiff_example. Qed.
+
+(* square-free decomposition, EVERY canonical input, EVERY characteristic (also where the known defect bites), by the loop invariant
+   W_k * (parts so far) = W_0: with A = P / lc P and C = gcd(A, A') / lc, the parts delivered multiply -- without multiplicities -- to
+   A / C whenever sqrfree did not leave through its `++count > Nfact` exit; in every case they divide A and every part divides P *)
+Theorem C09_sqrfree_parts_multiply_to_radical_cofactor : Sqrfree_parts_stmt.
+Proof. exact sqrfree_parts_thm. Qed.
+Print Assumptions C09_sqrfree_parts_multiply_to_radical_cofactor.
+Theorem C09_sqrfree_exit_dichotomy : Sqrfree_cases_stmt.
+Proof. exact sqrfree_cases_thm. Qed.
+Print Assumptions C09_sqrfree_exit_dichotomy.
+Theorem C09_sqrfree_parts_divide_input : Sqrfree_sound_stmt.
+Proof. exact sqrfree_sound_thm. Qed.
+Print Assumptions C09_sqrfree_parts_divide_input.
+Example C09_sqrfree_parts_hypotheses_satisfiable_char2 : prime 2 /\ canon 2 [0; 0; 1] /\ [0; 0; 1] <> [] /\ 3 <> 0 /\
+  sqrfree 2 3 [0; 0; 1] = (1, [[1]]) /\ 1 = Z.of_nat (length [[1]]).
+Proof. pose proof sqrfree_parts_example_char2 as H. tauto. Qed.
+
+(* Yun's recurrence is EXACT whenever it should be -- every prime p, every size (replaces the sweep C09_sqrfree_multiplies_back_partial
+   by a proof: Bezout, Gauss, Leibniz):  if A = P / lc P is a_1^1 a_2^2 ... a_m^m with the a_i canonical, square-free
+   (deg gcd(a_i, a_i') <= 0), pairwise coprime, a_m not constant, and m < p (every multiplicity below the characteristic),
+   then sqrfree returns exactly m parts and the i-th part is a_i up to a non-zero constant *)
+Theorem C09_sqrfree_yun_exact_below_characteristic : Sqrfree_yun_stmt.
+Proof. exact sqrfree_yun_thm. Qed.
+Print Assumptions C09_sqrfree_yun_exact_below_characteristic.
+Example C09_sqrfree_yun_hypotheses_satisfiable : prime 5 /\ canon 5 [0; 3; 3; 3; 0; 3; 1] /\ yun_hyp 5 [[0; 1]; [1; 1]; [2; 1]].
+Proof. pose proof sqrfree_yun_example as H. tauto. Qed.
+
+(* CZfactor: "no factor is invented", every input, every characteristic, every MOD, every random stream: each returned factor divides
+   the input; all returned factors, each taken once, times a constant are the product of the square-free parts; times C they divide A
+   and give exactly A when sqrfree did not leave by its early exit ("no factor of the radical cofactor is lost") *)
+Theorem C09_czfactor_invents_no_factor : Czfactor_divides_stmt.
+Proof. exact czfactor_divides_thm. Qed.
+Print Assumptions C09_czfactor_invents_no_factor.
+Theorem C09_czfactor_factors_are_the_radical_cofactor : Czfactor_radical_stmt.
+Proof. exact czfactor_radical_thm. Qed.
+Print Assumptions C09_czfactor_factors_are_the_radical_cofactor.
